@@ -69,9 +69,15 @@ def load_cov(orb, data):
     return cov
 
 
-def dump_cov(cov):
+def dump_cov(cov, orb_frame):
+    """
+    Args:
+        cov (Cov)
+        orb_frame (Frame): frame of the state the covariance is attached to (not
+            the one of ``cov.orb``, a private copy that follows the covariance)
+    """
     text = "\n"
-    if cov.frame != cov.orb.frame:
+    if cov.frame != orb_frame:
         frame = cov.frame
         if frame == "QSW":
             frame = "RSW"
